@@ -305,6 +305,9 @@ traversal:
 	p.next = parent
 	parent.signals = append(parent.signals, p.signals...)
 	p.signals = nil
+	if len(p.clients) > 0 && parent.clients == nil {
+		parent.clients = make(map[clientPath][]clientAndPromise)
+	}
 	for path, cp := range p.clients {
 		parent.clients[path] = append(parent.clients[path], cp...)
 	}
@@ -626,7 +629,9 @@ traversal:
 		ft := f.transform()
 		cpath := clientPathFromTransform(ft)
 		if row := p.clients[cpath]; len(row) > 0 {
-			return row[0].client
+			c := row[0].client
+			p.mu.Unlock()
+			return c
 		}
 		c, pr := NewPromisedClient(pipelineClient{
 			p:         p,
